@@ -123,7 +123,7 @@ def run_case(chk, kind, N, s3, s4, tag, do_compose):
     chk.note('%s: %.1f s, %d generic decisions' % (label, time.time() - t0, st['generic_nonzero_notes']))
 
 
-def high_degree_series(chk, N, s3, s4, tag):
+def high_degree_series(chk, N, s3, s4, tag, explicit_sign=False):
     """The coordinate series of a SPARSE symbolic generator (a few monomials in G3 and G4, nothing else) at a high truncation
     degree: the number of nested brackets needed grows with N (N-1 for the cubic part), so series-length, factorial and
     truncation errors that low degrees cannot show appear here.  Convention-free obligations: canonical and inverse o forward = id."""
@@ -134,12 +134,13 @@ def high_degree_series(chk, N, s3, s4, tag):
     enc = pb._create_encode_dict_from_clmo(clmo)
     tables = (psi, clmo, enc)
     ex = Explorer(generic_nonzero=True)
-    label = 'sparse generator/N=%d/support %s' % (N, tag)
+    label = 'sparse generator%s/N=%d/support %s' % (' (explicit signs, as the pipeline calls it)' if explicit_sign else '', N, tag)
     with explore.activate(ex):
         G, Gref = R.make_sym_poly(tables, {3: s3, 4: s4}, 'g%s_' % tag)
         G += [pb._make_poly(d, psi) for d in range(len(G), N + 1)]
-        fwd = cl._lie_expansion(G, N, psi, clmo, 1e-30, inverse=False, sign=None, restrict=False)
-        inv = cl._lie_expansion(G, N, psi, clmo, 1e-30, inverse=True, sign=None, restrict=False)
+        # explicit_sign: the call pattern of HamiltonianPipeline.get_lie_expansions (direction AND generator sign passed explicitly)
+        fwd = cl._lie_expansion(G, N, psi, clmo, 1e-30, inverse=False, sign=(1 if explicit_sign else None), restrict=False)
+        inv = cl._lie_expansion(G, N, psi, clmo, 1e-30, inverse=True, sign=(-1 if explicit_sign else None), restrict=False)
         Phi = [R.from_blocks(fwd[i], clmo) for i in range(6)]
         Psi = [R.from_blocks(inv[i], clmo) for i in range(6)]
         top = max((sum(k) for P in Phi for k, v in P.items() if not is_zero(v)), default=0)
@@ -190,26 +191,30 @@ for k, c in (((2, 1, 0, 0, 0, 0), 0.3), ((1, 0, 0, 0, 1, 1), -0.2), ((0, 1, 0, 1
     G[sum(k)][_encode_multiindex(np.array(k, dtype=np.int64), sum(k), enc)] = c
 Gl = List()
 for a in G: Gl.append(a)
-fwd = _lie_expansion(Gl, N, psi, clmo, 1e-30, inverse=False, sign=None, restrict=False)
-inv = _lie_expansion(Gl, N, psi, clmo, 1e-30, inverse=True, sign=None, restrict=False)
-# canonicity: {Phi_i, Phi_j} = J_ij up to degree N-1
-worst_c = 0.0
-for i in range(6):
-    for j in range(i + 1, 6):
-        br = _polynomial_poisson_bracket(fwd[i], fwd[j], N, psi, clmo, enc)
-        for d in range(0, N):
-            blk = np.asarray(br[d]) if d < len(br) else np.zeros(1)
-            tgt = np.zeros_like(blk)
-            if d == 0 and j == i + 3: tgt[0] = 1.0
-            worst_c = max(worst_c, float(np.max(np.abs(blk - tgt))) if blk.size else 0.0)
-# inverse o forward at a small point: error must be O(|z|^(N+1))
-z = np.array([0.11, -0.07, 0.05, 0.09, 0.06, -0.08], dtype=np.complex128)
-def ev(series, pt): return np.array([_polynomial_evaluate(series[i], pt, clmo) for i in range(6)])
-err = []
-for scale in (1.0, 0.5):
-    w = ev(inv, ev(fwd, z * scale)); err.append(float(np.max(np.abs(w - z * scale))))
-order = np.log2(err[0] / err[1]) if err[1] > 0 else 99.0
-_verdict(worst_c > 1e-10 or order < N + 0.5, worst_bracket_error=worst_c, roundtrip_errors=err, observed_order=float(order), expected_order=N + 1)
+results = {}
+for mode, (sf, si) in (("default signs", (None, None)), ("explicit signs as the pipeline passes them", (1, -1))):
+    fwd = _lie_expansion(Gl, N, psi, clmo, 1e-30, inverse=False, sign=sf, restrict=False)
+    inv = _lie_expansion(Gl, N, psi, clmo, 1e-30, inverse=True, sign=si, restrict=False)
+    # canonicity: {Phi_i, Phi_j} = J_ij up to degree N-1
+    worst_c = 0.0
+    for i in range(6):
+        for j in range(i + 1, 6):
+            br = _polynomial_poisson_bracket(fwd[i], fwd[j], N, psi, clmo, enc)
+            for d in range(0, N):
+                blk = np.asarray(br[d]) if d < len(br) else np.zeros(1)
+                tgt = np.zeros_like(blk)
+                if d == 0 and j == i + 3: tgt[0] = 1.0
+                worst_c = max(worst_c, float(np.max(np.abs(blk - tgt))) if blk.size else 0.0)
+    # inverse o forward at a small point: error must be O(|z|^(N+1))
+    z = np.array([0.11, -0.07, 0.05, 0.09, 0.06, -0.08], dtype=np.complex128)
+    def ev(series, pt): return np.array([_polynomial_evaluate(series[i], pt, clmo) for i in range(6)])
+    err = []
+    for scale in (1.0, 0.5):
+        w = ev(inv, ev(fwd, z * scale)); err.append(float(np.max(np.abs(w - z * scale))))
+    order = np.log2(err[0] / err[1]) if err[1] > 0 else 99.0
+    results[mode] = (worst_c, err, float(order))
+bad = {m.replace(" ", "_"): "bracket error %%.2e, round-trip errors %%s, observed order %%.2f (required %%d)" %% (r[0], r[1], r[2], N + 1) for m, r in results.items() if r[0] > 1e-10 or (r[1][1] > 1e-14 and r[2] < N + 0.5)}
+_verdict(bool(bad), **bad)
 ''' % N
 
 
@@ -277,6 +282,7 @@ def main():
     run_case(chk, 'partial', 4, alt3, alt4, 'B(seed %d)' % chk.seed, False)
     run_case(chk, 'full', 5, H3_SUPPORT, H4_SUPPORT, 'A', False)
     high_degree_series(chk, 8 if not thorough else 9, H3_SUPPORT[:3], H4_SUPPORT[:1], 'S')
+    high_degree_series(chk, 6, H3_SUPPORT[:3], H4_SUPPORT[:1], 'S', explicit_sign=True)
     if thorough:
         # (the first sizing -- dense composition at N = 5 for both transforms plus the sparse series at degree 10 -- did not finish in 2 h)
         run_case(chk, 'partial', 5, H3_SUPPORT[:5], H4_SUPPORT[:3], 'A5', True)
